@@ -225,6 +225,38 @@ def coq_forbidden_scan(files=None):
     return hits
 
 
+NS = {"Gen": "gen", "Model": "model", "Proofs": "proofs", "Props": "props", "Extract": "extract"}
+
+
+def coq_cone(module):
+    """Files of the development the given module (e.g. TG.Props.C10) transitively depends on, itself
+    included, computed from the `From TG.x Require [Import|Export] A B.` / `Require Import TG.x.A.` lines.
+    Falls back to the whole development when the module's file is missing."""
+    def path_of(ns, name):
+        return NS.get(ns, "") + "/" + name + ".v"
+    parts = module.split(".")
+    if len(parts) != 3 or parts[1] not in NS:
+        return coq_files()
+    todo, seen = [path_of(parts[1], parts[2])], []
+    while todo:
+        rel = todo.pop()
+        if rel in seen:
+            continue
+        fp = os.path.join(COQ, rel)
+        if not os.path.exists(fp):
+            if not seen:
+                return coq_files()
+            continue
+        seen.append(rel)
+        txt = strip_coq_comments(open(fp).read())
+        for m in re.finditer(r"From\s+TG\.(\w+)\s+Require\s+(?:Import\s+|Export\s+)?([^.]*)\.", txt):
+            for name in m.group(2).split():
+                todo.append(path_of(m.group(1), name))
+        for m in re.finditer(r"\bTG\.(\w+)\.(\w+)", txt):
+            todo.append(path_of(m.group(1), m.group(2)))
+    return sorted(seen)
+
+
 def strip_coq_comments(s):
     out, depth, i, n = [], 0, 0, len(s)
     instr = False
@@ -278,7 +310,7 @@ def prove(prop_module, theorems, targets, allowed=None):
             failures.append({"kind": "axioms", "theorem": t, "axioms": a})
         else:
             discharged += 1
-    scan = coq_forbidden_scan()
+    scan = coq_forbidden_scan(coq_cone(prop_module))
     for h in scan:
         failures.append({"kind": "forbidden-declaration", "where": h})
     return {"obligations": len(theorems), "discharged": discharged, "failures": failures,
